@@ -788,7 +788,10 @@ def transform_stage(ctx, binary, stats, hist, notes, only=None):
         hist["ut:A=" + meta["astyle"]] = hist.get("ut:A=" + meta["astyle"], 0) + 1
         hist["ut:P=" + meta["pstyle"]] = hist.get("ut:P=" + meta["pstyle"], 0) + 1
         hist["ut:scale=" + meta.get("scale", "?")] = hist.get("ut:scale=" + meta.get("scale", "?"), 0) + 1
-        probs, o, Bs = check_ut_case(line, meta, h, stats, notes)
+        try:
+            probs, o, Bs = check_ut_case(line, meta, h, stats, notes)
+        except (IndexError, ValueError) as e:
+            probs, o, Bs = [("prop", "ut-output-malformed", "unscented_transform (%s overload): output not of the expected form (%s): %s" % (meta["mode"], type(e).__name__, h[:80]))], None, None
         first.append((probs, o, Bs))
         if Bs is not None or (o is not None and not meta["valid"]):
             k, n = meta["k"], meta["nx"] + meta["nz"]
@@ -1329,11 +1332,19 @@ def circ_stage_impl(ctx, binary, stats, hist, notes, only=None):
         if not h.startswith("ok"):
             probs.append(("prop", "ut-crash" if meta["valid"] else "ut-crash-on-failure", "unscented_transform failed on a valid input with circular components (%s): %s" % (kind, h[:80])))
         else:
-            o = parse_utc_out(h, meta)
+            try:
+                o = parse_utc_out(h, meta)
+            except (IndexError, ValueError) as e:
+                o = None
+                probs.append(("prop", "ut-output-malformed", "unscented_transform with circular components: output not of the expected form (%s): %s" % (type(e).__name__, h[:80])))
             n = li.dof
-            if o["same"] != "in-same":
+            if o is None:
+                pass
+            elif o["same"] != "in-same":
                 notes["input_modified"] = notes.get("input_modified", 0) + 1
-            if (not meta["valid"]) and o["flag"] != 0:
+            if o is None:
+                pass
+            elif (not meta["valid"]) and o["flag"] != 0:
                 probs.append(("prop", "failure-reported-as-success", "circular layout: the function evaluation failed but the transform reported success"))
             elif meta["valid"] and o["flag"] != 1:
                 probs.append(("prop", "success-reported-as-failure", "circular layout: valid evaluation but the transform reported failure"))
